@@ -49,3 +49,44 @@ mod verif_kani_shims {
         assert!(r.is_ok() == (y <= 65535)); if let Ok(v) = r { assert!(v as usize == y); }
     }
 }
+// Bounded validation of the remaining trusted specifications (assumptions A3, A4, A6): `slice.into()` (R10), the capacity axioms
+// for Vec::push / Vec::pop used by SimpleGseMemory, and the derived Clone of Extension.
+#[cfg(kani)]
+mod verif_kani_assumptions {
+    use crate::header_extension::Extension;
+    /// R10: `<&[u8] as Into<Vec<u8>>>::into` copies the slice (lengths 0..=4, all contents)
+    #[kani::proof]
+    #[kani::unwind(6)]
+    fn shim_into_vec_bounded() {
+        let a: [u8; 4] = kani::any();
+        let n: usize = kani::any();
+        kani::assume(n <= 4);
+        let v: Vec<u8> = a[..n].into();
+        assert!(v.len() == n);
+        let mut i = 0;
+        while i < n { assert!(v[i] == a[i]); i += 1; }
+    }
+    /// axiom_push_cap / axiom_pop_cap: capacity is unchanged by push below capacity and by pop; with_capacity(n) has capacity >= n
+    #[kani::proof]
+    #[kani::unwind(6)]
+    fn axiom_vec_capacity_bounded() {
+        let n: usize = kani::any();
+        kani::assume(n >= 1 && n <= 4);
+        let mut v: Vec<u8> = Vec::with_capacity(n);
+        let cap = v.capacity();
+        assert!(cap >= n && v.len() == 0);
+        let mut i = 0;
+        while i < n { if v.len() < v.capacity() { v.push(i as u8); assert!(v.capacity() == cap); } i += 1; }
+        let _ = v.pop();
+        assert!(v.capacity() == cap);
+    }
+    /// axiom_ext_clone: the derived Clone of Extension keeps id and data (optional 2-byte data; mandatory with 0..=2 data bytes)
+    #[kani::proof]
+    #[kani::unwind(4)]
+    fn axiom_ext_clone_bounded() {
+        let d: [u8; 2] = kani::any();
+        let e = if kani::any() { Extension::new(0x0245, &d).unwrap() } else { let n: usize = kani::any(); kani::assume(n <= 2); Extension::new(0x0042, &d[..n]).unwrap() };
+        let c = e.clone();
+        assert!(c == e && c.id() == e.id() && c.len() == e.len());
+    }
+}
